@@ -368,6 +368,17 @@ func (c *Ctx) drainBeforeEOF() {
 			readPath[fn] = true
 		}
 	}
+	// the private helpers of the ring that ReadWait waits through (a wait loop shared with the other reads)
+	for fn := range readPath {
+		if fn.Name() != "ReadWait" || recvNamed(fn) != "buffer" {
+			continue
+		}
+		for _, call := range ir.Calls(fn) {
+			if h := call.Common().StaticCallee(); h != nil && h.Blocks != nil && recvNamed(h) == "buffer" && h.Object() != nil && !h.Object().Exported() && len(c.calls(h, "sync", "Cond", "Wait")) > 0 {
+				readPath[h] = true
+			}
+		}
+	}
 	n := 0
 	for fn := range readPath {
 		loops := ir.Loops(fn)
@@ -391,6 +402,7 @@ func (c *Ctx) drainBeforeEOF() {
 			// producer's cursor (read through sequence.get) whose block dominates the test of the closed flag
 			if inWait {
 				dominated := false
+				domCmp, leavingCmp := false, false
 				for b := range l.Blocks {
 					iff, ok := b.Instrs[len(b.Instrs)-1].(*ssa.If)
 					if !ok {
@@ -408,8 +420,16 @@ func (c *Ctx) drainBeforeEOF() {
 					if leaves && b != call.Block() && b.Dominates(call.Block()) {
 						dominated = true
 					}
+					// a data test written as a chain (`pos > p || (!reach && pos == p)`): one comparison with the
+					// producer's cursor dominates the closed-flag test, one of the chain leaves the loop
+					if b != call.Block() && b.Dominates(call.Block()) {
+						domCmp = true
+					}
+					if leaves {
+						leavingCmp = true
+					}
 				}
-				inWait = dominated
+				inWait = dominated || domCmp && leavingCmp
 			}
 			c.R.Check(inWait, ruleP5, fn.Name()+":closed-flag-tested-only-when-data-is-missing", c.P.InstrPos(call), "the closed flag is consulted inside the wait loop, i.e. only when the requested bytes are not yet there", "the ring's closed flag ends the read in "+fname(fn)+" before looking at the buffered data: packets that arrived just before the connection ended (e.g. a DISCONNECT followed by the close) are dropped and the will is published")
 		}
